@@ -3,8 +3,9 @@
 Monitor: the traces are produced by really executing `a & b` (and `Fiber.intersection(...,
 style="leader-follower")`) under `Metrics` with consumable traces, for 1..n consecutive fibers under
 0..2 outer loop ranks; the real model objects (TwoFingerIntersector, SkipAheadIntersector,
-LeaderFollowerIntersector) are fed the consumed traces fiber by fiber, in one shot, and in random
-groups of consecutive fibers; their totals are compared with closed-form counts computed from the raw
+LeaderFollowerIntersector) are fed the consumed traces fiber by fiber, in one shot, in random
+groups of consecutive fibers, and with empty calls (traces really consumed when nothing new was traced)
+before the first / between / after the last batch; their totals are compared with closed-form counts computed from the raw
 coordinate lists (never from the trace, never from the models).  `Compute.numSwaps` is compared with an
 independent round-by-round simulation over the raw coordinate lists and re-run with other payloads.
 
@@ -29,7 +30,14 @@ SPEC = {
              "under Metrics with consumable intersect_0/intersect_1 traces, below 0, 1 or 2 outer loop ranks "
              "with strictly increasing loop points; the consumed traces are fed to fresh TwoFinger / SkipAhead / "
              "LeaderFollower(a) / LeaderFollower(b) model objects fiber by fiber, in one shot, and in a random "
-             "grouping of consecutive fibers (one real execution per batching mode).  Systematic part: every pair "
+             "grouping of consecutive fibers (one real execution per batching mode), and once more with one of "
+             "these batchings interleaved with EMPTY calls: the consumable traces are really consumed (and the "
+             "result fed to every model; for the two-trace models both traces are empty) 0..2 times at the top of "
+             "the iteration that starts each batch - for the first batch that is before the intersected rank has "
+             "been iterated at all, e.g. 'feed at the top of every iteration, drain at the end' - and 0..2 times "
+             "after the loop nest has ended; an empty call contributes nothing, so the same closed-form totals are "
+             "required (where the known one-shot defect masks the closed form, the outcome must equal that of the "
+             "same batching without the empty calls).  Systematic part: every pair "
              "of subsets of {0..4} as a single fiber, every sequence of two fibers over subsets of {0..2} "
              "({0..3} thorough), every sequence of three fibers over subsets of {0..1} ({0..2} thorough); "
              "random part: longer lists, explicit default payloads, empty / disjoint / interleaved / identical "
@@ -42,16 +50,25 @@ SPEC = {
     "min_counts": {"quick": {"evaluations": 3000, "oracle_evals": 30000, "model_feeds": 20000,
                              "multi_fiber_batches_clean": 1500, "multi_fiber_batches_known_pattern": 300,
                              "numswaps_calls": 1500, "numswaps_N_calls": 200, "numswaps_N_tiefree_calls": 200,
-                             "lf_real_runs": 100},
+                             "lf_real_runs": 100, "empty_call_runs": 2000, "empty_call_feeds": 8000,
+                             "empty_calls_fed": 8000, "empty_first_calls_fed": 2000},
                    "thorough": {"evaluations": 60000, "oracle_evals": 600000, "model_feeds": 400000,
-                                "multi_fiber_batches_clean": 30000, "numswaps_calls": 20000}},
+                                "multi_fiber_batches_clean": 30000, "numswaps_calls": 20000,
+                                "empty_call_runs": 40000, "empty_first_calls_fed": 40000}},
     "assumptions": [
         "coordinate lists of an operand = the coordinates it presents to `&` (stored elements whose payload is "
         "not the default), integer coordinates, ordered/unique fibers",
         "multi-fiber batches are only fed when fiber boundaries are recognisable in the trace, i.e. under at least "
         "one outer traced loop rank with strictly increasing loop points (as in a real loop nest); without an "
         "outer rank only fiber-by-fiber feeding (and a single fiber in one shot) is judged",
-        "batches are cut at fiber boundaries only (addTraces 'must be called after two fibers are fully intersected')",
+        "batches are cut at fiber boundaries only (addTraces 'must be called after two fibers are fully intersected'); "
+        "a batch may be empty (a call made when nothing was traced since the previous consumption: before the first "
+        "fiber, twice at one boundary, after the last fiber); such a call contributes 0 to every total",
+        "TEMPORARY guard pending decision: on the unchanged tree TwoFingerIntersector.addTraces([], []) as the very "
+        "first call raises IndexError (SkipAhead guards this case, TwoFinger does not); empty calls that precede the "
+        "first non-empty call are therefore not fed to the two-finger model (TWO_FINGER_SKIP_EMPTY_FIRST_CALLS); "
+        "they are fed to the skip-ahead and leader-follower models, and empty calls in the middle / at the end are fed "
+        "to all three",
         "leader-follower model fed the intersect_<l> trace of one operand of `&` counts the rows that operand "
         "presented: elements consumed by the merge including the one left under the finger when the other "
         "operand ran out (reading fixed by test_num_isect_leader_follower); for a real leader-follower "
@@ -103,6 +120,24 @@ def _outer_for(n, d, style=0):
     return pts
 
 
+def _sys_emp(k):
+    """Empty-call pattern of the k-th systematic case of a shard: which batching it is laid over and how many
+    empty calls go before the first batch / between batches / after the last batch (all 7 non-void
+    lead/middle/trail combinations in turn, one or two calls)."""
+    bits = 1 + k % 7
+    two = 1 + (k // 7) % 2
+    return {"base": (k // 14) % 3, "lead": two if bits & 1 else 0, "mid": [1, two] if bits & 2 else [],
+            "trail": (3 - two) if bits & 4 else 0}
+
+
+def _rand_emp(rng):
+    r = rng.random()
+    if r < 0.25:                                    # feed at the top of every iteration, drain at the end
+        return {"base": 0, "lead": 1, "mid": [], "trail": 0}
+    return {"base": rng.randint(0, 2), "lead": rng.choice([0, 1, 1, 2]),
+            "mid": [rng.choice([0, 1, 2]) for _ in range(rng.randint(0, 3))], "trail": rng.choice([0, 0, 1, 2])}
+
+
 def generate(rng, tier, shard, nshards, mon):
     quick = tier == "quick"
     idx = 0
@@ -113,7 +148,7 @@ def generate(rng, tier, shard, nshards, mon):
             if idx % nshards == shard:
                 d = idx // nshards % 3
                 yield {"kind": "isect", "outer": _outer_for(1, d, idx), "fibers": [[_leaf(a), _leaf(b, 1)]],
-                       "groups": [1], "sys": "one-fiber-n5"}
+                       "groups": [1], "emp": _sys_emp(idx // nshards), "sys": "one-fiber-n5"}
             idx += 1
     mon.exhaustive["isect-one-fiber-subsets-n5"] = True
     # (b) two fibers
@@ -126,7 +161,7 @@ def generate(rng, tier, shard, nshards, mon):
                 d = 1 + (idx // nshards) % 2
                 yield {"kind": "isect", "outer": _outer_for(2, d, idx // 7),
                        "fibers": [[_leaf(p1[0]), _leaf(p1[1], 1)], [_leaf(p2[0], 2), _leaf(p2[1], 3)]],
-                       "groups": [2], "sys": f"two-fibers-n{n2}"}
+                       "groups": [2], "emp": _sys_emp(idx // nshards), "sys": f"two-fibers-n{n2}"}
             idx += 1
     mon.exhaustive[f"isect-two-fibers-subsets-n{n2}"] = True
     # (c) three fibers
@@ -140,7 +175,8 @@ def generate(rng, tier, shard, nshards, mon):
                     d = 1 + (idx // nshards) % 2
                     yield {"kind": "isect", "outer": _outer_for(3, d, idx // 5),
                            "fibers": [[_leaf(p[0], k), _leaf(p[1], k + 1)] for k, p in enumerate((p1, p2, p3))],
-                           "groups": [[3], [1, 2], [2, 1]][idx % 3], "sys": f"three-fibers-n{n3}"}
+                           "groups": [[3], [1, 2], [2, 1]][idx % 3], "emp": _sys_emp(idx // nshards),
+                           "sys": f"three-fibers-n{n3}"}
                 idx += 1
     mon.exhaustive[f"isect-three-fibers-subsets-n{n3}"] = True
     if not quick:
@@ -153,7 +189,8 @@ def generate(rng, tier, shard, nshards, mon):
                     if idx % nshards == shard:
                         yield {"kind": "isect", "outer": _outer_for(3, 1 + idx // nshards % 2, idx // 5),
                                "fibers": [[_leaf(p[0], k), _leaf(p[1], k + 1)] for k, p in enumerate((p1, p2, p3))],
-                               "groups": [[3], [1, 2], [2, 1]][idx % 3], "sys": "three-fibers-n3"}
+                               "groups": [[3], [1, 2], [2, 1]][idx % 3], "emp": _sys_emp(idx // nshards),
+                               "sys": "three-fibers-n3"}
                     idx += 1
         mon.exhaustive["isect-three-fibers-subsets-n3"] = True
     # (d) systematic numSwaps: all ordered triples of non-empty subsets of {0..2} x radix x latency
@@ -276,12 +313,12 @@ def _random_case(rng):
         n = rng.choice([1, 2, 2, 3, 3, 4, 5, 6])
         d = rng.choice([0, 1, 1, 1, 2, 2])
         return {"kind": "isect", "outer": _rand_outer(rng, n, d), "fibers": [_rand_pair(rng) for _ in range(n)],
-                "groups": _rand_groups(rng, n)}
+                "groups": _rand_groups(rng, n), "emp": _rand_emp(rng)}
     if r < 0.62:
         n = rng.choice([1, 2, 3])
         d = rng.choice([0, 1, 2])
         return {"kind": "lf", "outer": _rand_outer(rng, n, d), "fibers": [_rand_pair(rng) for _ in range(n)],
-                "groups": _rand_groups(rng, n)}
+                "groups": _rand_groups(rng, n), "emp": _rand_emp(rng)}
     return _rand_swaps(rng)
 
 
@@ -418,9 +455,12 @@ def _outer_tree(points):
     return walk
 
 
-def _execute(case, groups, style="and"):
+def _execute(case, groups, style="and", slots=None):
     """Really run the loop nest once, consuming the traces after each group of consecutive fibers.
-    -> list of (trace_a, trace_b) chunks, one per group."""
+    slots (len(groups) + 1 counts): additional consumptions at moments when nothing new has been traced -
+    slots[i] times at the top of the iteration that starts group i (before its first `&`; for i = 0 that is
+    before the traced rank has been iterated at all) and slots[-1] times after the loop nest has ended.
+    -> list of (trace_a, trace_b) chunks in consumption order."""
     fibers = []
     for sa, sb in case["fibers"]:
         a = gen.fiber_from_spec(sa)
@@ -429,13 +469,20 @@ def _execute(case, groups, style="and"):
         b.getRankAttrs().setId("K")
         fibers.append((a, b))
     cuts = set(itertools.accumulate(groups))
+    starts = {st: i for i, st in enumerate([0] + list(itertools.accumulate(groups))[:-1])}
     chunks = []
+
+    def consume():
+        chunks.append((Metrics.consumeTrace("K", "intersect_0"), Metrics.consumeTrace("K", "intersect_1")))
     Metrics.beginCollect()
     try:
         Metrics.trace("K", "intersect_0", consumable=True)
         Metrics.trace("K", "intersect_1", consumable=True)
 
         def body(n):
+            if slots is not None and n in starts:
+                for _ in range(slots[starts[n]]):
+                    consume()
             a, b = fibers[n]
             if style == "and":
                 res = a & b
@@ -446,7 +493,7 @@ def _execute(case, groups, style="and"):
                 if k > cap:
                     raise RuntimeError("runaway intersection")
             if n + 1 in cuts:
-                chunks.append((Metrics.consumeTrace("K", "intersect_0"), Metrics.consumeTrace("K", "intersect_1")))
+                consume()
         if len(case["outer"][0]) == 0:
             for n in range(len(fibers)):
                 body(n)
@@ -456,6 +503,9 @@ def _execute(case, groups, style="and"):
             for _ in walk():
                 body(n)
                 n += 1
+        if slots is not None:
+            for _ in range(slots[-1]):
+                consume()
         Metrics.endCollect()
     except BaseException:
         _reset_metrics()
@@ -463,18 +513,43 @@ def _execute(case, groups, style="and"):
     return chunks
 
 
-def _feed(model_cls, chunks, side=None):
-    """Feed one fresh model object the chunks in order; -> (total, None) or (None, exception)."""
+# TEMPORARY guard pending decision: TwoFingerIntersector.addTraces([], []) as the very first call raises
+# IndexError on the unchanged tree (`len(trace0[0])` without SkipAhead's `and trace0`); while the guard is on,
+# the empty calls that precede the first non-empty one are not fed to the two-finger model.  With the guard off
+# the failure is reported under its own key two-finger:empty-first-call:raised:IndexError.
+TWO_FINGER_SKIP_EMPTY_FIRST_CALLS = True
+
+
+def _is_empty(chunk):
+    return not chunk[0] and not chunk[1]
+
+
+def _feed(model_cls, chunks, side=None, mon=None):
+    """Feed one fresh model object the chunks in order; -> (total, None, None) or (None, exception, where);
+    where = "empty-first-call" when the failing call is an empty one and nothing non-empty was fed before."""
     m = model_cls()
+    if model_cls is TwoFingerIntersector and TWO_FINGER_SKIP_EMPTY_FIRST_CALLS:
+        k = 0
+        while k < len(chunks) and _is_empty(chunks[k]):
+            k += 1
+        chunks = chunks[k:]
+    seen_rows = False
+    for ta, tb in chunks:
+        mine = (ta, tb) if side is None else ((ta,) if side == 0 else (tb,))
+        empty = not any(mine)
+        if mon is not None and empty:
+            mon.count("empty_calls_fed")
+            if not seen_rows:
+                mon.count("empty_first_calls_fed")
+        try:
+            m.addTraces(*mine)
+        except BaseException as e:      # noqa
+            return None, e, ("empty-first-call" if empty and not seen_rows else None)
+        seen_rows = seen_rows or not empty
     try:
-        for ta, tb in chunks:
-            if side is None:
-                m.addTraces(ta, tb)
-            else:
-                m.addTraces(ta if side == 0 else tb)
-        return m.getNumIntersects(), None
+        return m.getNumIntersects(), None, None
     except BaseException as e:      # noqa
-        return None, e
+        return None, e, None
 
 
 def run_case(case, mon):
@@ -487,18 +562,45 @@ def run_case(case, mon):
         _run_swaps(case, mon)
 
 
+EMPTY = "+empty-calls"
+
+
 def _modes(case):
+    """-> list of (mode name, groups, slots); slots is None for the plain batchings.  The last mode lays the
+    case's empty-call pattern over one of the plain batchings: slots[i] empty calls before batch i, slots[-1]
+    after the last batch."""
     n = len(case["fibers"])
     d = len(case["outer"][0])
-    modes = [("per-fiber", [1] * n)]
+    modes = [("per-fiber", [1] * n, None)]
     if n == 1:
-        modes.append(("one-shot", [1]))
+        modes.append(("one-shot", [1], None))
     elif d > 0:
-        modes.append(("one-shot", [n]))
+        modes.append(("one-shot", [n], None))
         g = list(case.get("groups") or [n])
         if sum(g) == n and g != [n] and g != [1] * n:
-            modes.append(("grouped", g))
+            modes.append(("grouped", g, None))
+    emp = case.get("emp")
+    if emp:
+        base, groups, _ = modes[emp.get("base", 0) % len(modes)]
+        mid = list(emp.get("mid") or [])
+        slots = [min(int(emp.get("lead", 0)), 2)]
+        for i in range(1, len(groups)):
+            slots.append(min(int(mid[(i - 1) % len(mid)]), 2) if mid else 0)
+        slots.append(min(int(emp.get("trail", 0)), 2))
+        if not any(slots):
+            slots[0] = 1
+        modes.append((base + EMPTY, groups, slots))
     return modes
+
+
+def _slot_chunks(chunks, slots):
+    """The chunks that were consumed at the empty-call moments (in consumption order: slots[i] chunks, then the
+    chunk of batch i, ..., finally slots[-1] chunks)."""
+    out, k = [], 0
+    for i, c in enumerate(slots):
+        out += chunks[k:k + c]
+        k += c + 1
+    return out
 
 
 def _run_isect(case, mon):
@@ -508,14 +610,23 @@ def _run_isect(case, mon):
             "leader-follower-a": sum(p["rows_a"] for p in per), "leader-follower-b": sum(p["rows_b"] for p in per)}
     mon.count("fibers", n)
     got_all = {}
-    for mode, groups in _modes(case):
+    for mode, groups, slots in _modes(case):
         try:
-            chunks = _execute(case, groups)
+            chunks = _execute(case, groups, slots=slots)
         except BaseException as e:      # noqa
             mon.violation(f"and-under-metrics:raised:{type(e).__name__}",
                           f"executing a & b under Metrics ({mode}) raised {type(e).__name__}: {e}")
             continue
-        multi = mode != "per-fiber" and n > 1
+        emp = slots is not None
+        base = mode[:-len(EMPTY)] if emp else mode
+        if emp:
+            mon.count("empty_call_runs")
+            mon.check(len(chunks) == len(groups) + sum(slots)
+                      and all(_is_empty(c) for c in _slot_chunks(chunks, slots)),
+                      "consumeTrace:nothing-traced-since-last-call:not-empty",
+                      f"consuming the intersect traces again when nothing was traced since the last consumption "
+                      f"returned rows: slots {slots} over groups {groups}, chunks {chunks}")
+        multi = base != "per-fiber" and n > 1
         # known-defect pattern, from the raw lists: a fiber that is not the last of its batch leaves a leftover row
         # and the models' entry assertion (first rows of both traces belong to one fiber) is known to trip exactly
         # when, in some batch, the first fiber with an a-row is not the first fiber with a b-row
@@ -539,14 +650,27 @@ def _run_isect(case, mon):
         for name, cls, side in (("two-finger", TwoFingerIntersector, None), ("skip-ahead", SkipAheadIntersector, None),
                                 ("leader-follower-a", LeaderFollowerIntersector, 0),
                                 ("leader-follower-b", LeaderFollowerIntersector, 1)):
-            total, exc = _feed(cls, chunks, side)
+            total, exc, where = _feed(cls, chunks, side, mon if emp else None)
             mon.count("model_feeds")
-            got_all[(mode, name)] = total
+            if emp:
+                mon.count("empty_call_feeds")
+            got_all[(mode, name)] = (total, type(exc).__name__ if exc is not None else None)
             fam = name if side is None else "leader-follower"
-            detail = (f"{name} fed {mode} {groups} over fibers "
-                      f"{[(_presented(a), _presented(b)) for a, b in case['fibers']]} outer {case['outer']}")
+            detail = (f"{name} fed {mode} {groups}" + (f" with {slots} empty calls before/between/after the batches" if emp else "")
+                      + f" over fibers {[(_presented(a), _presented(b)) for a, b in case['fibers']]} outer {case['outer']}")
+            if where == "empty-first-call":
+                mon.violation(f"{fam}:empty-first-call:raised:{type(exc).__name__}",
+                              f"{detail}: an empty first addTraces call raised {type(exc).__name__}: {exc}")
+                continue
+            if emp and multi and side is None and (pattern or assert_expected):
+                # the closed form is masked by the known defect class here; an empty call contributes nothing, so
+                # the outcome must be that of the same batching without the empty calls
+                ref = got_all.get((base, name))
+                mon.check(ref is None or ref == got_all[(mode, name)],
+                          f"{fam}:with-empty-calls:outcome-differs-from-same-batching-without",
+                          f"{detail}: outcome (total, exception) {got_all[(mode, name)]}, without the empty calls {ref}")
             if side is not None or not multi:
-                label = "one-shot-single-fiber" if (mode == "one-shot" and n == 1) else mode
+                label = "with-empty-calls" if emp else ("one-shot-single-fiber" if (mode == "one-shot" and n == 1) else mode)
                 if exc is not None:
                     mon.violation(f"{fam}:{label}:raised:{type(exc).__name__}", f"{detail} raised {type(exc).__name__}: {exc}")
                     continue
@@ -570,7 +694,7 @@ def _run_isect(case, mon):
                           f"{detail}: model reports {total} but fiber-by-fiber / independent merge gives {want[name]} "
                           f"(a non-final fiber of a batch ends on a match or has one empty operand, leaving a leftover row)")
             else:
-                mon.check(total == want[name], f"{fam}:multi-fiber-batch:total:no-leftover-row",
+                mon.check(total == want[name], f"{fam}:multi-fiber-batch{EMPTY if emp else ''}:total:no-leftover-row",
                           f"{detail}: model reports {total}, independent merge gives {want[name]}; no fiber of a batch "
                           f"leaves a leftover row before the batch's last fiber")
     if any(p["both"] for p in per):
@@ -582,23 +706,29 @@ def _run_lf(case, mon):
     """Real leader-follower intersections: the leader presents each of its non-empty elements once."""
     want = sum(len(_presented(sa)) for sa, _ in case["fibers"])
     n = len(case["fibers"])
-    for mode, groups in _modes(case):
+    for mode, groups, slots in _modes(case):
+        emp = slots is not None
         try:
-            chunks = _execute(case, groups, style="lf")
+            chunks = _execute(case, groups, style="lf", slots=slots)
         except BaseException as e:      # noqa
             mon.violation(f"leader-follower-intersection-under-metrics:raised:{type(e).__name__}",
                           f"executing a leader-follower intersection under Metrics raised {type(e).__name__}: {e}")
             continue
         mon.count("lf_real_runs")
-        total, exc = _feed(LeaderFollowerIntersector, chunks, 0)
+        total, exc, _where = _feed(LeaderFollowerIntersector, chunks, 0, mon if emp else None)
         mon.count("model_feeds")
+        label = "with-empty-calls" if emp else mode
+        if emp:
+            mon.count("empty_call_runs")
+            mon.count("empty_call_feeds")
         if exc is not None:
-            mon.violation(f"leader-follower:real-leader:{mode}:raised:{type(exc).__name__}",
+            mon.violation(f"leader-follower:real-leader:{label}:raised:{type(exc).__name__}",
                           f"LeaderFollowerIntersector fed {mode} raised {type(exc).__name__}: {exc}")
             continue
-        mon.check(total == want, f"leader-follower:real-leader:{mode}:total",
+        mon.check(total == want, f"leader-follower:real-leader:{label}:total",
                   f"leader trace of leader-follower intersections over {[_presented(a) for a, _ in case['fibers']]} fed "
-                  f"{mode} {groups}: model reports {total}, the leaders present {want} elements")
+                  f"{mode} {groups}" + (f" with {slots} empty calls before/between/after the batches" if emp else "")
+                  + f": model reports {total}, the leaders present {want} elements")
     if want:
         mon.nontrivial()
     mon.state(("lf", want, n))
